@@ -1206,7 +1206,9 @@ class WorkflowConductor(object):
         ctx = {}
 
         for ctx_idx in ctx_idxs:
-            ctx = dict_util.merge_dicts(ctx, self.workflow_state.contexts[ctx_idx], overwrite=True)
+            # A variable in a later context entry overwrites the variable of the same name. Copy
+            # the entry so the recorded context is not modified when the result is changed.
+            ctx.update(json_util.deepcopy(self.workflow_state.contexts[ctx_idx]))
 
         return ctx
 
